@@ -1,5 +1,7 @@
 import F3.Proofs.InstanceRun
 import F3.Props.C07
+import F3.Proofs.SyncGeneralNet
+import F3.Model.NetTimed
 /-!
 # C06 — termination (partial by nature)
 
@@ -215,5 +217,330 @@ example : ∃ s : State, ∃ now : Int, s.phase = .prepare ∧
      .recv 201 { sender := 1, round := 0, phase := .prepare, value := [7] },
      .recv 202 { sender := 2, round := 0, phase := .prepare, value := [7, 8] }]
   refine ⟨(run (init cfg tbl [7, 8]) ops).1, 400, by decide, by decide⟩
+
+/-! ## Arbitrary inputs sharing the base, all participants honest, synchrony: round 0 decides the longest
+quorum-supported prefix
+
+Generalisation of `C02.unanimous_sync_decides` from one common input chain to one input chain `inp p` per participant
+(`F3/Proofs/SyncGeneral{Tally,Votes,Node,Net}.lean`). Setting: the participants `H` are exactly the members of the
+power table (`tbl.entries.map (·.1) = H`, distinct), the total power is positive, all inputs start at the same base
+`b`; the network, the executions (`execOk`: no faulty sender) and the untimed synchrony condition `SyncOrdered` are
+those of `F3/Model/Net.lean`.
+
+* `SyncGeneral.supp tbl H inp k` is the power of the participants whose input has prefix `k`, `SyncGeneral.SQ` says
+  that it is a strong quorum by the model's own `strongQ`. Quorum-supported prefixes are totally ordered
+  (`quorum_prefixes_ordered`: two strong quorums share a member, whose input extends both), so there is a longest
+  one, `SyncGeneral.longestQuorumPrefix tbl H inp` (`longestQuorumPrefix_greatest`; the base always qualifies).
+* What the model does (`general_sync_invariant`): after QUALITY participant `p` PREPAREs `propOf p`, the longest
+  quorum-supported prefix of *its own* input — `P*` for those whose input extends `P*` (they hold a strong quorum),
+  a proper prefix of `P*` for the others; the former COMMIT `P*` with a justification, the latter find their proposal
+  impossible (or time out) and COMMIT bottom; everybody — also a participant still in QUALITY or PREPARE, and those
+  that committed bottom — moves to DECIDE `P*` on a strong quorum of COMMITs for `P*`, and terminates on a strong
+  quorum of DECIDEs. Nothing fails, nobody leaves round 0.
+* Liveness (`general_sync_decides`): in a complete execution everybody has terminated with value `P*`, provided no
+  participant is left waiting for its QUALITY timer. Unlike the unanimous case this proviso is needed also for long
+  chains: `tryQuality` leaves QUALITY early only on a quorum for the participant's *own input*; a participant whose
+  input is not itself quorum-supported (e.g. all inputs extend `P*` differently) waits for the timer. It suffices
+  that, for every participant, the timer has fired or the own input is quorum-supported
+  (`general_sync_decides_timers`). -/
+section GeneralInputs
+open F3.Net F3.SyncGeneral
+
+/-- **Quorum-supported prefixes are totally ordered** (so "the longest" is well defined). -/
+theorem quorum_prefixes_ordered (tbl : Table) (H : List Pid) (inp : Pid → Chain) (b : Nat)
+    (hH : tbl.entries.map (·.1) = H) (hnd : H.Nodup) (hpos : 0 < tbl.total)
+    (hbase : ∀ p ∈ H, (inp p).head? = some b) {k1 k2 : Chain}
+    (h1 : SQ tbl H inp k1 = true) (h2 : SQ tbl H inp k2 = true) : k1 <+: k2 ∨ k2 <+: k1 :=
+  (gctx_of tbl H inp b hH hnd hpos hbase).sq_comparable h1 h2
+
+/-- **`longestQuorumPrefix` is the greatest quorum-supported chain**: it is non-empty, starts at the base, is
+supported by a strong quorum, and every non-empty quorum-supported chain is a prefix of it. -/
+theorem longestQuorumPrefix_greatest (tbl : Table) (H : List Pid) (inp : Pid → Chain) (b : Nat)
+    (hH : tbl.entries.map (·.1) = H) (hnd : H.Nodup) (hpos : 0 < tbl.total)
+    (hbase : ∀ p ∈ H, (inp p).head? = some b) :
+    longestQuorumPrefix tbl H inp ≠ [] ∧ (longestQuorumPrefix tbl H inp).head? = some b ∧
+    SQ tbl H inp (longestQuorumPrefix tbl H inp) = true ∧
+    ∀ k, k ≠ [] → SQ tbl H inp k = true → k <+: longestQuorumPrefix tbl H inp := by
+  have g := gctx_of tbl H inp b hH hnd hpos hbase
+  exact ⟨g.pstar_ne, g.pstar_head, g.pstar_sq, fun k hk hs => g.sq_le_pstar hk hs⟩
+
+/-- **After QUALITY** (tally level): every proposal is a quorum-supported prefix of the proposer's own input and of
+`P*`; the participants whose input extends `P*` propose exactly `P*`, and they hold a strong quorum. -/
+theorem proposals_after_quality (tbl : Table) (H : List Pid) (inp : Pid → Chain) (b : Nat)
+    (hH : tbl.entries.map (·.1) = H) (hnd : H.Nodup) (hpos : 0 < tbl.total)
+    (hbase : ∀ p ∈ H, (inp p).head? = some b) :
+    (∀ p ∈ H, propOf tbl H inp p <+: inp p ∧ propOf tbl H inp p <+: longestQuorumPrefix tbl H inp ∧
+      SQ tbl H inp (propOf tbl H inp p) = true ∧
+      (propOf tbl H inp p = longestQuorumPrefix tbl H inp ↔ longestQuorumPrefix tbl H inp <+: inp p)) ∧
+    strongQ tbl (((H.filter (fun p => propOf tbl H inp p == longestQuorumPrefix tbl H inp)).map tbl.power).sum) = true := by
+  have g := gctx_of tbl H inp b hH hnd hpos hbase
+  refine ⟨fun p hp => ⟨g.propOf_prefix hp, g.propOf_le_pstar hp, g.propOf_sq hp, g.propOf_eq_pstar_iff hp⟩, ?_⟩
+  rw [← F3.Sync.sumP_eq_sum]
+  exact g.majority_strong
+
+/-- the only messages such a run puts on the wire: QUALITY(input), PREPARE(`propOf`), COMMIT(`P*` justified by
+PREPAREs for `P*`, or bottom), DECIDE(`P*` justified by COMMITs for `P*`), all of round 0 -/
+def GeneralMsg (tbl : Table) (H : List Pid) (inp : Pid → Chain) (m : Msg) : Prop :=
+  m.round = 0 ∧
+  ((m.phase = .quality ∧ m.value = inp m.sender ∧ m.just = none) ∨
+   (m.phase = .prepare ∧ m.value = propOf tbl H inp m.sender ∧ m.just = none) ∨
+   (m.phase = .commit ∧ m.value = cvOf tbl H inp m.sender ∧
+      (m.value ≠ [] → ∃ j, m.just = some j ∧ j.round = 0 ∧ j.phase = .prepare ∧ j.value = longestQuorumPrefix tbl H inp)) ∨
+   (m.phase = .decide ∧ m.value = longestQuorumPrefix tbl H inp ∧
+      ∃ j, m.just = some j ∧ j.round = 0 ∧ j.phase = .commit ∧ j.value = longestQuorumPrefix tbl H inp))
+
+/-- **Safety of the synchronous run with arbitrary inputs.** In every admissible, synchrony-ordered execution:
+(a) no node ever reports a failure effect; (b) every message ever broadcast comes from a member of `H` and is a
+`GeneralMsg`; (c) every node is still in round 0 and a node that has a termination value has decided `P*`. -/
+theorem general_sync_invariant (tbl : Table) (H : List Pid) (inp : Pid → Chain) (cfg : Pid → Cfg) (b : Nat)
+    (hH : tbl.entries.map (·.1) = H) (hnd : H.Nodup) (hpos : 0 < tbl.total)
+    (hbase : ∀ p ∈ H, (inp p).head? = some b) (ops : List NetOp)
+    (hexec : execOk (initNet tbl H cfg inp) ops = true) (hsync : SyncOrdered (initNet tbl H cfg inp) ops) :
+    (runNet (initNet tbl H cfg inp) ops).fails = [] ∧
+    (∀ m ∈ (runNet (initNet tbl H cfg inp) ops).pool, m.sender ∈ H ∧ GeneralMsg tbl H inp m) ∧
+    (runNet (initNet tbl H cfg inp) ops).nodes.map (·.1) = H ∧
+    (∀ p s, (p, s) ∈ (runNet (initNet tbl H cfg inp) ops).nodes →
+      s.round = 0 ∧ ∀ d, s.termination = some d → d.value = longestQuorumPrefix tbl H inp) := by
+  have g := gctx_of tbl H inp b hH hnd hpos hbase
+  have hn := general_invariant_core g cfg ops hexec hsync
+  refine ⟨hn.fails, fun m hm => ⟨(hn.pool m hm).2, gshape_cases (hn.pool m hm).1⟩, hn.ids, ?_⟩
+  intro p s hp
+  have hno := hn.node p s hp
+  exact ⟨hno.inv.round, hno.inv.term⟩
+
+/-- **The longest quorum-supported prefix is decided in round 0.** If moreover the execution is *complete* (every
+member has started and every message ever broadcast has been handed to every member) and no member is still waiting
+in QUALITY, then every member has terminated with decision `longestQuorumPrefix tbl H inp`. -/
+theorem general_sync_decides (tbl : Table) (H : List Pid) (inp : Pid → Chain) (cfg : Pid → Cfg) (b : Nat)
+    (hH : tbl.entries.map (·.1) = H) (hnd : H.Nodup) (hpos : 0 < tbl.total)
+    (hbase : ∀ p ∈ H, (inp p).head? = some b) (ops : List NetOp)
+    (hexec : execOk (initNet tbl H cfg inp) ops = true) (hsync : SyncOrdered (initNet tbl H cfg inp) ops)
+    (hcomplete : complete (runNet (initNet tbl H cfg inp) ops) = true)
+    (hquality : ∀ p s, (p, s) ∈ (runNet (initNet tbl H cfg inp) ops).nodes → s.phase ≠ .quality) :
+    (∀ p ∈ H, ∃ s, (p, s) ∈ (runNet (initNet tbl H cfg inp) ops).nodes) ∧
+    ∀ p s, (p, s) ∈ (runNet (initNet tbl H cfg inp) ops).nodes →
+      s.phase = .terminated ∧ s.round = 0 ∧
+      ∃ d, s.termination = some d ∧ d.value = longestQuorumPrefix tbl H inp := by
+  have g := gctx_of tbl H inp b hH hnd hpos hbase
+  obtain ⟨h1, h2⟩ := general_decides_core g cfg ops hexec hsync hcomplete hquality
+  have hn := general_invariant_core g cfg ops hexec hsync
+  exact ⟨h1, fun p s hp => ⟨(h2 p s hp).1, (hn.node p s hp).inv.round, (h2 p s hp).2⟩⟩
+
+/-- ... in particular when, for every member, the QUALITY timer has fired while it was in QUALITY or its own input
+is supported by a strong quorum (with at least one tipset beyond the base — QUALITY tallies nothing for the base). -/
+theorem general_sync_decides_timers (tbl : Table) (H : List Pid) (inp : Pid → Chain) (cfg : Pid → Cfg) (b : Nat)
+    (hH : tbl.entries.map (·.1) = H) (hnd : H.Nodup) (hpos : 0 < tbl.total)
+    (hbase : ∀ p ∈ H, (inp p).head? = some b) (ops : List NetOp)
+    (hexec : execOk (initNet tbl H cfg inp) ops = true) (hsync : SyncOrdered (initNet tbl H cfg inp) ops)
+    (hcomplete : complete (runNet (initNet tbl H cfg inp) ops) = true)
+    (htimers : ∀ p ∈ H, p ∈ (runNet (initNet tbl H cfg inp) ops).fired ∨
+      (2 ≤ (inp p).length ∧ SQ tbl H inp (inp p) = true)) :
+    (∀ p ∈ H, ∃ s, (p, s) ∈ (runNet (initNet tbl H cfg inp) ops).nodes) ∧
+    ∀ p s, (p, s) ∈ (runNet (initNet tbl H cfg inp) ops).nodes →
+      s.phase = .terminated ∧ s.round = 0 ∧
+      ∃ d, s.termination = some d ∧ d.value = longestQuorumPrefix tbl H inp := by
+  have g := gctx_of tbl H inp b hH hnd hpos hbase
+  have hn := general_invariant_core g cfg ops hexec hsync
+  exact general_sync_decides tbl H inp cfg b hH hnd hpos hbase ops hexec hsync hcomplete
+    (fun p s hp => g_complete_not_quality g hn hcomplete hp (htimers p (hn.mem_H hp)))
+
+/-- **Corollary (validity, cf. C02).** The value decided by such a run is non-empty, starts at the base and is a
+prefix of the input of a set of participants holding a strong quorum of power. -/
+theorem general_sync_validity (tbl : Table) (H : List Pid) (inp : Pid → Chain) (cfg : Pid → Cfg) (b : Nat)
+    (hH : tbl.entries.map (·.1) = H) (hnd : H.Nodup) (hpos : 0 < tbl.total)
+    (hbase : ∀ p ∈ H, (inp p).head? = some b) (ops : List NetOp)
+    (hexec : execOk (initNet tbl H cfg inp) ops = true) (hsync : SyncOrdered (initNet tbl H cfg inp) ops)
+    (p : Pid) (s : State) (hp : (p, s) ∈ (runNet (initNet tbl H cfg inp) ops).nodes) (d : Just)
+    (hd : s.termination = some d) :
+    d.value ≠ [] ∧ d.value.head? = some b ∧
+    strongQ tbl (((H.filter (fun h => d.value.isPrefixOf (inp h))).map tbl.power).sum) = true := by
+  have g := gctx_of tbl H inp b hH hnd hpos hbase
+  have hv := ((general_sync_invariant tbl H inp cfg b hH hnd hpos hbase ops hexec hsync).2.2.2 p s hp).2 d hd
+  rw [hv, ← F3.Sync.sumP_eq_sum]
+  exact ⟨g.pstar_ne, g.pstar_head, g.pstar_sq⟩
+
+/-- with unanimous inputs the longest quorum-supported prefix is the common input chain -/
+theorem longestQuorumPrefix_unanimous (tbl : Table) (H : List Pid) (c : Chain)
+    (hH : tbl.entries.map (·.1) = H) (hnd : H.Nodup) (hpos : 0 < tbl.total) (hc : c ≠ []) :
+    longestQuorumPrefix tbl H (fun _ => c) = c := by
+  obtain ⟨a, as, rfl⟩ : ∃ a as, c = a :: as := by
+    cases c with
+    | nil => exact absurd rfl hc
+    | cons a as => exact ⟨a, as, rfl⟩
+  exact pstar_unanimous (gctx_of tbl H (fun _ => a :: as) a hH hnd hpos (fun _ _ => rfl))
+
+/-- **Corollary (unanimous inputs).** For `inp = fun _ => c` the general theorem specialises to the statement of
+`C02.unanimous_sync_decides` (same conclusion, same `2 ≤ c.length ∨ timersFired` proviso), for the case that the
+honest members are the whole table. -/
+theorem general_sync_decides_unanimous (tbl : Table) (H : List Pid) (c : Chain) (cfg : Pid → Cfg)
+    (hH : tbl.entries.map (·.1) = H) (hnd : H.Nodup) (hpos : 0 < tbl.total) (hc : c ≠ []) (ops : List NetOp)
+    (hexec : execOk (initNet tbl H cfg (fun _ => c)) ops = true)
+    (hsync : SyncOrdered (initNet tbl H cfg (fun _ => c)) ops)
+    (hcomplete : complete (runNet (initNet tbl H cfg (fun _ => c)) ops) = true)
+    (htimers : 2 ≤ c.length ∨ timersFired (runNet (initNet tbl H cfg (fun _ => c)) ops) = true) :
+    (∀ p ∈ H, ∃ s, (p, s) ∈ (runNet (initNet tbl H cfg (fun _ => c)) ops).nodes) ∧
+    ∀ p s, (p, s) ∈ (runNet (initNet tbl H cfg (fun _ => c)) ops).nodes →
+      s.phase = .terminated ∧ ∃ d, s.termination = some d ∧ d.value = c := by
+  obtain ⟨a, as, rfl⟩ : ∃ a as, c = a :: as := by
+    cases c with
+    | nil => exact absurd rfl hc
+    | cons a as => exact ⟨a, as, rfl⟩
+  have hbase : ∀ p ∈ H, ((fun _ => a :: as) p).head? = some a := fun _ _ => rfl
+  have g := gctx_of tbl H (fun _ => a :: as) a hH hnd hpos hbase
+  have hn := general_invariant_core g cfg ops hexec hsync
+  have ht : ∀ p ∈ H, p ∈ (runNet (initNet tbl H cfg (fun _ => a :: as)) ops).fired ∨
+      (2 ≤ ((fun _ => a :: as) p).length ∧ SQ tbl H (fun _ => a :: as) ((fun _ => a :: as) p) = true) := by
+    intro p hp
+    rcases htimers with hl | hf
+    · exact Or.inr ⟨hl, sq_unanimous g⟩
+    · left
+      unfold timersFired at hf
+      simp only [List.all_eq_true, List.contains_eq_mem, decide_eq_true_eq] at hf
+      rw [← hn.ids] at hp
+      obtain ⟨e, he, rfl⟩ := List.mem_map.1 hp
+      exact hf e he
+  obtain ⟨h1, h2⟩ := general_sync_decides_timers tbl H (fun _ => a :: as) cfg a hH hnd hpos hbase ops hexec hsync
+    hcomplete ht
+  refine ⟨h1, fun p s hp => ?_⟩
+  obtain ⟨h3, _, d, h4, h5⟩ := h2 p s hp
+  exact ⟨h3, d, h4, by rw [h5]; exact pstar_unanimous g⟩
+
+/-! ### non-vacuity: four participants with diverging inputs and unequal power -/
+
+def giTbl : Table := { entries := [(1, 40), (2, 30), (3, 20), (4, 10)] }
+def giCfg : Cfg := { maxLookahead := 2, rebImmediateAfter := 3, timeout2 := [100], qualityTimeout2 := 100, rebAfter := [50] }
+/-- inputs `0.1.2.5`, `0.1.2.6`, `0.1.3`, `0.4`: `0.1.2` is supported by 70 of 100, `0.1` by 90, `0` by all;
+no input is itself quorum-supported, so QUALITY ends by the timers -/
+def giInp : Pid → Chain := fun p => match p with | 1 => [0, 1, 2, 5] | 2 => [0, 1, 2, 6] | 3 => [0, 1, 3] | _ => [0, 4]
+def giNet : Net := initNet giTbl [1, 2, 3, 4] (fun _ => giCfg) giInp
+def giQ (p : Pid) : Msg := { sender := p, round := 0, phase := .quality, value := giInp p }
+def giP (p : Pid) (v : Chain) : Msg := { sender := p, round := 0, phase := .prepare, value := v }
+def giC (p : Pid) : Msg :=
+  { sender := p, round := 0, phase := .commit, value := [0, 1, 2],
+    just := some { round := 0, phase := .prepare, value := [0, 1, 2], signers := [0, 1] } }
+def giC0 (p : Pid) : Msg := { sender := p, round := 0, phase := .commit, value := [] }
+def giD (p : Pid) : Msg :=
+  { sender := p, round := 0, phase := .decide, value := [0, 1, 2],
+    just := some { round := 0, phase := .commit, value := [0, 1, 2], signers := [0, 1] } }
+def giAll (now : Int) (m : Msg) : List NetOp := [.deliver 1 now m, .deliver 2 now m, .deliver 3 now m, .deliver 4 now m]
+
+/-- everybody starts, all QUALITY votes are handed over, the QUALITY timers fire (`alarm 1 50` is a non-expired
+alarm); members 1 and 2 PREPARE `0.1.2`, member 3 `0.1`, member 4 the base; 3 and 4 find their proposals impossible
+and COMMIT bottom, 1 and 2 COMMIT `0.1.2`; everybody DECIDEs `0.1.2` -/
+def giOps : List NetOp :=
+  [.start 1 0, .start 2 0, .start 3 0, .start 4 0] ++
+  giAll 1 (giQ 1) ++ giAll 2 (giQ 2) ++ giAll 3 (giQ 3) ++ giAll 4 (giQ 4) ++
+  [.alarm 1 50, .alarm 1 100, .alarm 2 100, .alarm 3 101, .alarm 4 102] ++
+  giAll 110 (giP 1 [0, 1, 2]) ++ giAll 111 (giP 3 [0, 1]) ++ giAll 112 (giP 4 [0]) ++ giAll 113 (giP 2 [0, 1, 2]) ++
+  giAll 120 (giC0 3) ++ giAll 121 (giC 1) ++ giAll 122 (giC0 4) ++ giAll 123 (giC 2) ++
+  giAll 130 (giD 1) ++ giAll 131 (giD 2) ++ giAll 132 (giD 3) ++ giAll 133 (giD 4)
+
+/-- the hypotheses of `general_sync_invariant` / `general_sync_decides_timers` hold of this execution ... -/
+theorem gi_hyps :
+    giTbl.entries.map (·.1) = [1, 2, 3, 4] ∧ [1, 2, 3, 4].Nodup ∧ 0 < giTbl.total ∧
+    (∀ p ∈ [1, 2, 3, 4], (giInp p).head? = some 0) ∧
+    execOk giNet giOps = true ∧ SyncOrdered giNet giOps ∧ complete (runNet giNet giOps) = true ∧
+    (∀ p ∈ [1, 2, 3, 4], p ∈ (runNet giNet giOps).fired ∨
+      (2 ≤ (giInp p).length ∧ SQ giTbl [1, 2, 3, 4] giInp (giInp p) = true)) := by
+  refine ⟨by decide, by decide, by decide, by decide, by decide, ?_, by decide, ?_⟩
+  · unfold SyncOrdered
+    decide
+  · have : (runNet giNet giOps).fired = [1, 2, 3, 4] := by decide
+    rw [this]
+    intro p hp
+    exact Or.inl hp
+
+/-- ... the longest quorum-supported prefix is `0.1.2`, the proposals are `0.1.2`, `0.1.2`, `0.1`, `0` ... -/
+example : longestQuorumPrefix giTbl [1, 2, 3, 4] giInp = [0, 1, 2] ∧
+    [1, 2, 3, 4].map (propOf giTbl [1, 2, 3, 4] giInp) = [[0, 1, 2], [0, 1, 2], [0, 1], [0]] := by
+  refine ⟨by decide, by decide⟩
+
+set_option maxRecDepth 4000 in
+/-- ... and, as the theorems say, nothing failed and everybody decided `0.1.2` in round 0 (members 3 and 4 after
+committing bottom). -/
+example :
+    (runNet giNet giOps).fails = [] ∧
+    (runNet giNet giOps).nodes.map (fun e => (e.1, e.2.phase, e.2.round, e.2.termination.map (·.value))) =
+      [(1, .terminated, 0, some [0, 1, 2]), (2, .terminated, 0, some [0, 1, 2]),
+       (3, .terminated, 0, some [0, 1, 2]), (4, .terminated, 0, some [0, 1, 2])] ∧
+    ((runNet giNet giOps).pool.filter (fun m => m.phase == .commit)).map (fun m => (m.sender, m.value)) =
+      [(3, []), (4, []), (1, [0, 1, 2]), (2, [0, 1, 2])] := by
+  refine ⟨by decide, by decide, by decide⟩
+
+/-- the general theorem applied to this execution -/
+example : ∀ p s, (p, s) ∈ (runNet giNet giOps).nodes →
+    s.phase = .terminated ∧ s.round = 0 ∧ ∃ d, s.termination = some d ∧ d.value = [0, 1, 2] := by
+  obtain ⟨h1, h2, h3, h4, h5, h6, h7, h8⟩ := gi_hyps
+  have h := (general_sync_decides_timers giTbl [1, 2, 3, 4] giInp (fun _ => giCfg) 0 h1 h2 h3 h4 giOps h5 h6 h7 h8).2
+  have hl : longestQuorumPrefix giTbl [1, 2, 3, 4] giInp = [0, 1, 2] := by decide
+  rw [hl] at h
+  exact h
+
+def geTbl : Table := { entries := [(1, 10), (2, 10), (3, 10), (4, 10)] }
+def geInpA : Pid → Chain := fun p => match p with | 1 => [0, 1, 2] | 2 => [0, 1, 2] | 3 => [0, 1, 3] | _ => [0, 1]
+def geInpB : Pid → Chain := fun p => match p with | 1 => [0, 1, 2] | 2 => [0, 1, 2] | 3 => [0, 1, 2] | _ => [0, 9]
+
+/-- Equal power, inputs `0.1.2`, `0.1.2`, `0.1.3`, `0.1`: `0.1.2` has only 20 of 40, the longest quorum-supported
+prefix is `0.1` (every proposal is `0.1`); a minority diverging right after the base (`0.1.2` three times, `0.9`
+once): `0.1.2`, the minority proposes the base. -/
+example :
+    longestQuorumPrefix geTbl [1, 2, 3, 4] geInpA = [0, 1] ∧
+    [1, 2, 3, 4].map (propOf geTbl [1, 2, 3, 4] geInpA) = [[0, 1], [0, 1], [0, 1], [0, 1]] ∧
+    longestQuorumPrefix geTbl [1, 2, 3, 4] geInpB = [0, 1, 2] ∧
+    [1, 2, 3, 4].map (propOf geTbl [1, 2, 3, 4] geInpB) = [[0, 1, 2], [0, 1, 2], [0, 1, 2], [0]] := by
+  refine ⟨by decide, by decide, by decide, by decide⟩
+
+/-! ### the real-time bound does *not* imply the synchrony order when inputs differ
+
+`C02.timed_sync_ordered` derives `SyncOrdered` from the real-time assumption `TimedSync Δ` for a *unanimous* input. For
+differing inputs this fails, and with it the round-0 decision: `tryQuality` ends QUALITY as soon as the participant's
+*own input* has a strong quorum, so a participant whose input is quorum-supported enters PREPARE (and arms its `2Δ`
+PREPARE timer) up to a whole QUALITY timeout before the participants whose input is not, and the timer expires before
+their PREPAREs arrive. Below (`Δ = 10`, both timeouts `2Δ = 20`, every delay `< Δ`, all four participants honest):
+member 1 (power 40, input `0.1.2` = `P*`, quorum at time 2, PREPARE timer 22) is handed member 3's PREPARE for `0.1` at
+26: timer expired, senders heard 40+10+20 = 70 of 100 (a strong quorum), only 40 for `0.1.2` ⇒ `prepComplete` ⇒ it
+COMMITs bottom, one tick before member 2's PREPARE for `0.1.2` would have completed the quorum. Bottom then holds
+70 of 100 COMMITs and everybody moves to round 1. (Not a safety problem — the next round takes over — but the
+"decided in round 0" claim needs the order `SyncOrdered`, which real-time synchrony gives only for unanimous inputs.) -/
+
+def rtTbl : Table := { entries := [(1, 40), (2, 30), (3, 20), (4, 10)] }
+def rtCfg : Cfg := { maxLookahead := 2, rebImmediateAfter := 3, timeout2 := [20], qualityTimeout2 := 20, rebAfter := [50] }
+def rtInp : Pid → Chain := fun p => match p with | 1 => [0, 1, 2] | 2 => [0, 1, 2, 6] | 3 => [0, 1, 3] | _ => [0, 1]
+def rtNet : Net := initNet rtTbl [1, 2, 3, 4] (fun _ => rtCfg) rtInp
+def rtQ (p : Pid) : Msg := { sender := p, round := 0, phase := .quality, value := rtInp p }
+def rtP (p : Pid) (v : Chain) : Msg := { sender := p, round := 0, phase := .prepare, value := v }
+def rtC0 (p : Pid) : Msg := { sender := p, round := 0, phase := .commit, value := [] }
+def rtC2 : Msg :=
+  { sender := 2, round := 0, phase := .commit, value := [0, 1, 2],
+    just := some { round := 0, phase := .prepare, value := [0, 1, 2], signers := [0, 1] } }
+def rtAll (now : Int) (m : Msg) : List NetOp := [.deliver 1 now m, .deliver 2 now m, .deliver 3 now m, .deliver 4 now m]
+/-- members 1 and 4 leave QUALITY at 2 and 3 (own input quorum-supported), members 2 and 3 at their timer (20) -/
+def rtOps : List NetOp :=
+  [.start 1 0, .start 2 0, .start 3 0, .start 4 0] ++
+  rtAll 1 (rtQ 1) ++ rtAll 2 (rtQ 2) ++ rtAll 3 (rtQ 3) ++ rtAll 4 (rtQ 4) ++
+  rtAll 5 (rtP 1 [0, 1, 2]) ++ rtAll 6 (rtP 4 [0, 1]) ++ rtAll 7 (rtC0 4) ++
+  [.alarm 2 20, .alarm 3 20,
+   .deliver 1 26 (rtP 3 [0, 1]), .deliver 1 27 (rtP 2 [0, 1, 2]),
+   .deliver 2 27 (rtP 3 [0, 1]), .deliver 3 27 (rtP 3 [0, 1]), .deliver 4 27 (rtP 3 [0, 1]),
+   .deliver 2 28 (rtP 2 [0, 1, 2]), .deliver 3 28 (rtP 2 [0, 1, 2]), .deliver 4 28 (rtP 2 [0, 1, 2])] ++
+  rtAll 30 (rtC0 1) ++ rtAll 31 (rtC0 3) ++ rtAll 32 rtC2
+
+set_option maxRecDepth 4000 in
+/-- **Finding.** All participants honest, every message delivered in less than `Δ`, timeouts `2Δ` (`TimedSync 10`),
+inputs sharing the base — and round 0 does not decide: the execution is not `SyncOrdered`, a proposer of the longest
+quorum-supported prefix `0.1.2` COMMITs bottom, bottom gathers a strong quorum and all four move to round 1. -/
+example :
+    execOk rtNet rtOps = true ∧ TimedSync 10 rtNet rtOps ∧ ¬ SyncOrdered rtNet rtOps ∧
+    longestQuorumPrefix rtTbl [1, 2, 3, 4] rtInp = [0, 1, 2] ∧ propOf rtTbl [1, 2, 3, 4] rtInp 1 = [0, 1, 2] ∧
+    (runNet rtNet rtOps).fails = [] ∧
+    ((runNet rtNet rtOps).pool.filter (fun m => m.phase == .commit)).map (fun m => (m.sender, m.value)) =
+      [(4, []), (1, []), (3, []), (2, [0, 1, 2])] ∧
+    (runNet rtNet rtOps).nodes.map (fun e => (e.1, e.2.phase, e.2.round, e.2.termination.map (·.value))) =
+      [(1, .converge, 1, none), (2, .converge, 1, none), (3, .converge, 1, none), (4, .converge, 1, none)] := by
+  refine ⟨by decide, ⟨by decide, by decide, by decide⟩, ?_, by decide, by decide, by decide, by decide, by decide⟩
+  unfold SyncOrdered
+  decide
+
+end GeneralInputs
 
 end F3.Props.C06
